@@ -2438,3 +2438,78 @@ def san_c15(v, tier, seed):
         return
     b = rq()
     cli.pool_run(v, memcheck_worker, [(seed * 1_000_003 + 500_000 + i, b, "C15") for i in range(400)])
+
+
+# ----------------------------------------------------------------------------
+# generator honesty: lib/udiff.py against GNU patch (not a property check; ./check selftest)
+
+
+def selftest_udiff(nrounds=3000, seed=1):
+    """For random (A, B, context): GNU patch applied to A with my rendering must give B, and -R on B must give A.
+    GNU patch is NOT an oracle for rapidquilt; this only guards the ground truth of the CLI workloads."""
+    import subprocess
+    import tempfile
+    import udiff
+    r = random.Random(seed)
+    bad = 0
+    with tempfile.TemporaryDirectory(prefix="rqverif-selftest-", dir="/dev/shm" if os.path.isdir("/dev/shm") else None) as d:
+        for i in range(nrounds):
+            a = wsgen.gen_content(r, r.choice([0, 3, 10, 40]), allow_bytes=False)
+            b = wsgen.mutate_content(r, a, 5) if r.random() < 0.85 else wsgen.gen_content(r, 20, allow_bytes=False)
+            if a == b:
+                continue
+            ctx = r.choice([0, 1, 2, 3, 5])
+            hunks = udiff.diff_hunks(udiff.split_lines(a), udiff.split_lines(b), ctx)
+            text = b"--- f\n+++ f\n" + b"".join(h.render() for h in hunks)
+            for rev in (False, True):
+                fp = os.path.join(d, "f")
+                with open(fp, "wb") as f:
+                    f.write(b if rev else a)
+                with open(os.path.join(d, "p.diff"), "wb") as f:
+                    f.write(text)
+                p = subprocess.run(["patch", "-p0", "-s", "-f", "--no-backup-if-mismatch"] + (["-R"] if rev else []) + ["-i", "p.diff"], cwd=d, stdout=subprocess.PIPE, stderr=subprocess.STDOUT)
+                got = open(fp, "rb").read() if os.path.exists(fp) else b""
+                want = a if rev else b
+                if p.returncode != 0 or got != want or b"offset" in p.stdout or b"fuzz" in p.stdout:
+                    bad += 1
+                    if bad <= 3:
+                        print("selftest mismatch: ctx=%d rev=%s rc=%s out=%r\nA=%r\nB=%r\npatch=%r" % (ctx, rev, p.returncode, p.stdout[-200:], a[:200], b[:200], text[:400]))
+    print("selftest udiff vs GNU patch: %d rounds, %d mismatches" % (nrounds, bad))
+    return bad
+
+
+def selftest_harness_renderer(n=1500, seed=1):
+    """The harness's own LCS diff renderer (used by C01 lib layer) against GNU patch."""
+    import subprocess
+    import tempfile
+    from common import build_harness
+    hb = build_harness()
+    bad = 0
+    with tempfile.TemporaryDirectory(prefix="rqverif-selftest-", dir="/dev/shm" if os.path.isdir("/dev/shm") else None) as d:
+        subprocess.run([hb, "export", "--gen", "pair", "--seed", str(seed), "--count", str(n), "--dir", os.path.join(d, "cases")], check=True, stdout=subprocess.DEVNULL)
+        for i in range(n):
+            base = os.path.join(d, "cases", str(i))
+            if not os.path.exists(base + ".patch"):
+                continue
+            text = open(base + ".patch", "rb").read()
+            if b"@@ -0,0 " in text or b" +0,0 @@" in text:
+                continue  # creations / deletions: GNU patch's handling of /dev/null and empty files is not what is being compared
+            w = os.path.join(d, "w")
+            shutil_rm(w)
+            os.makedirs(w)
+            if os.path.exists(base + ".file"):
+                shutil_copy(base + ".file", os.path.join(w, "f"))
+            want = open(base + ".expect", "rb").read() if os.path.exists(base + ".expect") else None
+            p = subprocess.run(["patch", "-p1", "-s", "-f", "--no-backup-if-mismatch"] + (["-R"] if os.path.exists(base + ".rev") else []) + ["-i", base + ".patch"], cwd=w, stdout=subprocess.PIPE, stderr=subprocess.STDOUT)
+            got = open(os.path.join(w, "f"), "rb").read() if os.path.exists(os.path.join(w, "f")) else None
+            if p.returncode != 0 or got != want or b"offset" in p.stdout or b"fuzz" in p.stdout:
+                bad += 1
+                if bad <= 3:
+                    print("harness renderer mismatch case %d: rc=%s out=%r" % (i, p.returncode, p.stdout[-200:]))
+    print("selftest harness renderer vs GNU patch: %d cases, %d mismatches" % (n, bad))
+    return bad
+
+
+def shutil_copy(a, b):
+    import shutil
+    shutil.copy(a, b)
